@@ -148,6 +148,13 @@ func verifyFunc(prog *Program, fi *FuncInfo, con *FuncContract) (rep *FuncReport
 // of the function under verification, or the pre-state of a call). A definition f(args) = body with f fresh
 // is a conservative extension, so assuming it is sound in both roles.
 func (x *Exec) declareGhosts(c *FuncContract, env *SpecEnv, st *State) {
+	defer func() {
+		for _, ax := range c.GhostAx {
+			if f, ok := x.clause(ax, env); ok {
+				st.pc = append(st.pc, f)
+			}
+		}
+	}()
 	for _, g := range c.Ghosts {
 		gf := &ghostFun{def: g}
 		x.ctx.n++
@@ -169,6 +176,7 @@ func (x *Exec) declareGhosts(c *FuncContract, env *SpecEnv, st *State) {
 		gf.ret = x.ctx.sortOf(rt)
 		gf.args = sorts
 		x.ctx.decl(fmt.Sprintf("(declare-fun %s (%s) %s)", gf.name, strings.Join(sorts, " "), gf.ret))
+		x.ghosts[g.Name] = gf
 		if g.Body != nil {
 			body := benv.expr(g.Body)
 			if len(bvars) == 0 {
